@@ -49,20 +49,28 @@ def main():
     if not ok:
         return 1
     # ---- run the checks against it
-    rc, o = sh(f'git -C /repo apply {patch}')
+    # the checks run against a scratch worktree of /repo's HEAD (FGGS_REPO), so /repo itself is never touched and other
+    # work on /repo can go on meanwhile; SEED_REPO=/repo restores the apply-to-/repo-and-revert behaviour
+    repo = os.environ.get('SEED_REPO', '/tmp/seedrepo')
+    if repo != '/repo' and not os.path.exists(repo):
+        sh(f'git -C /repo worktree add --detach {repo}')
+    if repo != '/repo':
+        sh('git checkout -- . && git checkout --detach ' + sh('git -C /repo rev-parse HEAD')[1].strip(), cwd=repo)
+    rc, o = sh(f'git -C {repo} apply {patch}')
     if rc:
-        print('patch does not apply to /repo', o); return 2
+        print('patch does not apply to', repo, o); return 2
+    cenv = dict(os.environ, FGGS_REPO=repo)
     try:
         runs = {}
         for c in [pid] + also:
-            rc, o = sh(f'./check {c} --tier quick', cwd=V, timeout=3000)
+            rc, o = sh(f'./check {c} --tier quick', cwd=V, timeout=3000, env=cenv)
             runs[f'{c} quick'] = dict(exit=rc, lines=[l for l in o.splitlines() if l.startswith(('VIOLATION', 'KNOWN-FINDING'))][:3])
             if rc == 0 and c == pid:
-                rc, o = sh(f'./check {c} --tier thorough', cwd=V, timeout=6000)
+                rc, o = sh(f'./check {c} --tier thorough', cwd=V, timeout=6000, env=cenv)
                 runs[f'{c} thorough'] = dict(exit=rc, lines=[l for l in o.splitlines() if l.startswith(('VIOLATION', 'KNOWN-FINDING'))][:3])
         res['checks'] = runs
     finally:
-        sh('git -C /repo checkout -- .')
+        sh(f'git -C {repo} checkout -- .')
     res['caught_by'] = [k_ for k_, v in runs.items() if v['exit'] == 1]
     d = V / 'seeded' / f'{pid}-{int(k) + offset}'
     d.mkdir(parents=True, exist_ok=True)
